@@ -46,6 +46,7 @@ class GapAnalysis:
         self.cname = cname
         self.env: dict[str, str] = {}
         self.noncomment_lists: set[str] = set()
+        self.type_tables: set[str] = set()
         self.routes: list[Route] = []
         self.generic: list = []
         self.filters: dict[str, tuple] = {}  # list name -> (start anchor, end anchor, node)
@@ -67,6 +68,16 @@ class GapAnalysis:
                             return tok_or_kind(t)
         if isinstance(e, ast.IfExp):
             return self.anchor_of(e.body) or self.anchor_of(e.orelse)
+        # a table of the keyword children keyed by their type: `{c.type: c for c in node.children …}.get("then")` / `[…]`
+        key = None
+        if isinstance(e, ast.Call) and isinstance(e.func, ast.Attribute) and e.func.attr == "get" and e.args and isinstance(e.args[0], ast.Constant) \
+                and isinstance(e.func.value, ast.Name) and e.func.value.id in self.type_tables:
+            key = e.args[0].value
+        if isinstance(e, ast.Subscript) and isinstance(e.slice, ast.Constant) and isinstance(e.slice.value, str) \
+                and isinstance(e.value, ast.Name) and e.value.id in self.type_tables:
+            key = e.slice.value
+        if isinstance(key, str):
+            return tok_or_kind(key)
         if isinstance(e, ast.Subscript) and isinstance(e.slice, ast.Constant) and isinstance(e.slice.value, int) \
                 and isinstance(e.value, ast.Name) and e.value.id in self.noncomment_lists:
             return f"pos:{e.slice.value}"
@@ -120,6 +131,11 @@ class GapAnalysis:
         fn = f.node
 
         def bind_targets(tgts, val):
+            if isinstance(val, ast.DictComp) and isinstance(val.key, ast.Attribute) and val.key.attr == "type" \
+                    and isinstance(val.value, ast.Name) and isinstance(val.key.value, ast.Name) and val.key.value.id == val.value.id:
+                for t in tgts:
+                    if isinstance(t, ast.Name):
+                        self.type_tables.add(t.id)
             if self.is_noncomment_list(val):
                 for t in tgts:
                     if isinstance(t, ast.Name):
@@ -168,6 +184,18 @@ class GapAnalysis:
                     comment_arm = False
                     range_conds = []
                     for sub in ast.walk(s):
+                        if isinstance(sub, ast.Match) and isinstance(sub.subject, ast.Attribute) and sub.subject.attr == "type" \
+                                and isinstance(sub.subject.value, ast.Name) and sub.subject.value.id == loopvar:
+                            # `match child.type: case "let": let_node = child`
+                            for cs in sub.cases:
+                                pats = cs.pattern.patterns if isinstance(cs.pattern, ast.MatchOr) else [cs.pattern]
+                                kinds_ = [p_.value.value for p_ in pats if isinstance(p_, ast.MatchValue) and isinstance(p_.value, ast.Constant)]
+                                if "comment" in kinds_:
+                                    comment_arm = True
+                                for b in cs.body:
+                                    if isinstance(b, ast.Assign) and isinstance(b.targets[0], ast.Name) and isinstance(b.value, ast.Name) \
+                                            and b.value.id == loopvar and len(kinds_) == 1 and kinds_[0] != "comment":
+                                        self.env[b.targets[0].id] = tok_or_kind(kinds_[0])
                         if isinstance(sub, ast.If):
                             t = type_test(sub.test)
                             if t and t != "comment":
